@@ -2,6 +2,7 @@
    compared with what the real traits did.  No proofs here. *)
 From Coq Require Import List ZArith NArith Bool.
 From Golem Require Export Check.C19o.
+From Golem Require Import Seq.GenFoldFacts.
 Import ListNotations.
 Open Scope Z_scope.
 
@@ -19,7 +20,8 @@ Definition all_in_range (o : list (res * list snap)) : bool :=
 (* volume cases: New(vlist n a0...) then Fold under vmon and Length, on the transcriptions of both traits *)
 Definition vol_model (I : impl) (n : nat) (a0 : Z) : option Z * Z :=
   let r := inew I (ih0 I) (vlist n a0) 0 in
-  (fold I (S (S (S n))) vmon (fst r) (snd r), ilength I (fst r) (snd r)).
+  (* the loop regenerated from foldable.go (coq/gen/GenFold.v) at the transcription of the trait *)
+  (gen_fold I (S (S (S n))) vmon (fst r) (snd r), ilength I (fst r) (snd r)).
 Definition vol_agrees (v : list Z) : bool :=
   match v with
   | [] => true
